@@ -153,7 +153,11 @@ fn ser_named_type(ty: &OwnedDataModelType, value: &Value, out: &mut Vec<u8>) -> 
         }
         OwnedDataModelType::F32 => {
             let val = value.as_f64().right()?;
-            let val = val as f32; // todo
+            let val = val as f32;
+            // out of range for f32: infinity is not a JSON number, the decoder could not give it back
+            if !val.is_finite() {
+                return Err(Error::SchemaMismatch);
+            }
             let val = val.to_le_bytes();
             out.extend_from_slice(&val);
         }
